@@ -13,3 +13,37 @@ Theorem C20_known_finding : inert_spec [155;62;33;112]%N = true /\ kf_c20 [155;6
 Proof. exact C20_kf_witness. Qed.
 Check C20_known_finding : inert_spec [155;62;33;112]%N = true /\ kf_c20 [155;62;33;112]%N = true /\ exists p', runP init_parser [155;62;33;112]%N = Ok (p', [Decstr]).
 Print Assumptions C20_known_finding.
+
+From Avt Require Import Model.Vt Oracles.Step Proofs.C20Terminal.
+(** terminal level (Proofs/C20Terminal.v): not only does the parser emit nothing - the terminal record is untouched *)
+(** no cell, cursor, mode, margin, tab stop, saved context or dirty-line flag changes (Leibniz equality of the whole terminal record) and the parser is back in ground state *)
+Theorem C20_terminal : forall v s, Inv v -> pst (vparser v) = Ground -> inert_spec s = true -> kf_c20 s = false -> exists v', feed_chars v s = Ok v' /\ vterm v' = vterm v /\ pst (vparser v') = Ground.
+Proof. exact C20_terminal_inert. Qed.
+Check C20_terminal : forall v s, Inv v -> pst (vparser v) = Ground -> inert_spec s = true -> kf_c20 s = false -> exists v', feed_chars v s = Ok v' /\ vterm v' = vterm v /\ pst (vparser v') = Ground.
+Print Assumptions C20_terminal.
+
+(** the executable statement the check evaluates on the implementation *)
+Theorem C20_statement : forall v s v', Inv v -> kf_c20 s = false -> feed_chars v s = Ok v' -> holds_C20 v s v' = true.
+Proof. exact C20_holds. Qed.
+Check C20_statement : forall v s v', Inv v -> kf_c20 s = false -> feed_chars v s = Ok v' -> holds_C20 v s v' = true.
+Print Assumptions C20_statement.
+
+(** no changed line is reported: feed_str of an inert sequence returns exactly what feed_str of the empty string returns *)
+Theorem C20_no_changed_line : forall v s, Inv v -> pst (vparser v) = Ground -> inert_spec s = true -> kf_c20 s = false -> exists v0 v1 o, feed_str v [] = Ok (v0, o) /\ feed_str v s = Ok (v1, o) /\ vterm v1 = vterm v0 /\ vparser v0 = vparser v /\ pst (vparser v1) = Ground.
+Proof. exact C20_flush_unchanged. Qed.
+Check C20_no_changed_line : forall v s, Inv v -> pst (vparser v) = Ground -> inert_spec s = true -> kf_c20 s = false -> exists v0 v1 o, feed_str v [] = Ok (v0, o) /\ feed_str v s = Ok (v1, o) /\ vterm v1 = vterm v0 /\ vparser v0 = vparser v /\ pst (vparser v1) = Ground.
+Print Assumptions C20_no_changed_line.
+
+(** from EVERY parser state (also in the middle of another sequence or string) when the inert sequence begins with ESC or a C1 control, which cancels whatever was in progress *)
+Theorem C20_terminal_anywhere : forall v s, Inv v -> starts_with_introducer s = true -> inert_spec s = true -> kf_c20 s = false -> exists v', feed_chars v s = Ok v' /\ vterm v' = vterm v /\ pst (vparser v') = Ground.
+Proof. exact C20_terminal_inert_anywhere. Qed.
+Check C20_terminal_anywhere : forall v s, Inv v -> starts_with_introducer s = true -> inert_spec s = true -> kf_c20 s = false -> exists v', feed_chars v s = Ok v' /\ vterm v' = vterm v /\ pst (vparser v') = Ground.
+Print Assumptions C20_terminal_anywhere.
+
+Local Open Scope N_scope.
+(** malformed shape, pinned: a private marker that is not in first position sends the whole sequence to CsiIgnore - nothing is dispatched *)
+Theorem C20_marker_not_first : forall p intro x tail m body f, PInv p -> intro = [155] \/ intro = [27; 91] -> 48 <= x <= 63 -> x <> 58 -> Forall (rng 48 59) tail -> 60 <= m <= 63 -> Forall (rng 32 63) body -> 64 <= f <= 126 -> exists p', runP p (intro ++ x :: tail ++ m :: body ++ [f]) = Ok (p', []) /\ pst p' = Ground.
+Proof. exact C20_csi_marker_not_first. Qed.
+Check C20_marker_not_first : forall p intro x tail m body f, PInv p -> intro = [155] \/ intro = [27; 91] -> 48 <= x <= 63 -> x <> 58 -> Forall (rng 48 59) tail -> 60 <= m <= 63 -> Forall (rng 32 63) body -> 64 <= f <= 126 -> exists p', runP p (intro ++ x :: tail ++ m :: body ++ [f]) = Ok (p', []) /\ pst p' = Ground.
+Print Assumptions C20_marker_not_first.
+Local Close Scope N_scope.
